@@ -266,7 +266,8 @@ static void check_saved(const phosg::Image& img, const Pix& pix, int via, int sa
     } catch (const std::runtime_error&) {
       threw = true;
     }
-    VCHECK(threw, "gray-save-not-rejected", "save(GRAYSCALE_PPM) did not throw runtime_error");
+    // (/repo refuses to save GRAYSCALE_PPM; the statement says nothing about that format: refused or written, counted only)
+    ctx().cls(threw ? "gray-save-refused" : "gray-save-written");
   }
   if (trunc) lsan_check("round trip of " + tag);
 }
